@@ -29,6 +29,8 @@ pub fn check(tier: Tier) -> Check {
         Part::new("C16/disciplines", json!({"depth": tier.pick(3, 4), "pairs": false, "faults": true}), 0, tier.pick(45, 600)),
         // an extra poll of the context task while a fragment of the next packet sits behind a big one
         Part::new("C16/after-big", json!({"sizes": [9000, 70_000]}), 0, 120),
+        // a resumed session with 17 .. 300 packets to re-send: all of them go out on wakeups alone
+        Part::new("C16/bulk", json!({}), 0, 120),
         // real time passes on a connection with a keep-alive (the one place where the wall clock could matter)
         Part::new("C16/idle", json!({}), 0, 60),
     ];
@@ -155,6 +157,9 @@ fn idle(name: String, params: Value) -> Scenario {
 }
 
 pub fn scenario(name: &str, params: &Value) -> Scenario {
+    if name == "C16/bulk" {
+        return super::c17::bulk("C16", name.to_string(), params.clone());
+    }
     if name == "C16/idle" {
         return idle(name.to_string(), params.clone());
     }
